@@ -56,7 +56,7 @@ type c17Op struct {
 	Key     uint8  `json:"key"`
 	Delta   int32  `json:"delta"`
 	Fill    int    `json:"fill,omitempty"`  // filler bytes in the event (varies size and padding)
-	Fail    int    `json:"fail,omitempty"`  // 1: callback runs its SQL, then returns an error; 2: returns an error before any SQL
+	Fail    int    `json:"fail,omitempty"`  // 1: callback runs its SQL, then returns an error; 2: returns an error before any SQL; 3: callback runs its SQL, cancels the context Do was given and returns the event normally
 	PauseUs int    `json:"pause,omitempty"` // sleep before the op
 }
 
@@ -422,7 +422,11 @@ func TestVerifC17Child(t *testing.T) {
 				}
 				ev := c17Ev{Seq: op.Seq, Key: op.Key, Delta: op.Delta, Fill: op.Fill}
 				c17Emit(c17Line{T: "start", Seq: op.Seq})
-				err := eng.Do(ctx, "c17_do", func(conn Conn, cache []byte) ([]byte, error) {
+				opCtx, cancelOp := context.WithCancel(ctx)
+				err := eng.Do(opCtx, "c17_do", func(conn Conn, cache []byte) ([]byte, error) {
+					if op.Fail == 3 {
+						defer cancelOp() // the caller gives up right when the callback is done: whatever the engine still does runs on a dead context
+					}
 					if op.Fail == 2 {
 						return nil, errC17Fail
 					}
@@ -434,6 +438,7 @@ func TestVerifC17Child(t *testing.T) {
 					}
 					return c17Encode(ev), nil
 				})
+				cancelOp()
 				switch {
 				case err == nil:
 					c17Emit(c17Line{T: "ack", Seq: op.Seq})
@@ -447,6 +452,8 @@ func TestVerifC17Child(t *testing.T) {
 					c17Emit(c17Line{T: "raceerr", Seq: op.Seq, Msg: err.Error()}) // Do racing Close may fail
 				case op.Fail != 0 && errors.Is(err, errC17Fail):
 					c17Emit(c17Line{T: "fail", Seq: op.Seq})
+				case op.Fail == 3 && errors.Is(err, context.Canceled):
+					c17Emit(c17Line{T: "cancelled", Seq: op.Seq}) // Do reported the write as failed
 				default:
 					c17Emit(c17Line{T: "doerr", Seq: op.Seq, Msg: err.Error()})
 				}
@@ -828,7 +835,7 @@ type c17Stats struct {
 	inflightAtKill, viewsChecked   int
 	tornTail, rotations, crcRecs   int
 	snapshotsBehind, snapshotsEven int
-	rejected                       int
+	rejected, cancelled            int
 	knownTornTail, tornByParent    int
 }
 
@@ -871,7 +878,7 @@ func c17Prop(t vpT, c c17Case, dir string, st *c17Stats) (nontrivial bool, class
 		started := map[uint32]bool{}
 		finished := map[uint32]bool{}
 		done := false
-		rejected, raceErrs := 0, 0
+		rejected, raceErrs, cancelled := 0, 0, 0
 		var views []c17Line
 		for k := range run.lines {
 			l := run.lines[k]
@@ -892,6 +899,10 @@ func c17Prop(t vpT, c c17Case, dir string, st *c17Stats) (nontrivial bool, class
 				finished[l.Seq] = true
 				failed[l.Seq] = true
 				rejected++
+			case "cancelled": // context cancelled inside the callback and Do returned the error: a failed write, nothing may remain of it
+				finished[l.Seq] = true
+				failed[l.Seq] = true
+				cancelled++
 			case "raceerr":
 				finished[l.Seq] = true
 				raceErrs++
@@ -1074,6 +1085,10 @@ func c17Prop(t vpT, c c17Case, dir string, st *c17Stats) (nontrivial bool, class
 				classes = append(classes, "append-rejected-then-clean-close")
 			}
 		}
+		if cancelled > 0 {
+			st.cancelled += cancelled
+			classes = append(classes, "ctx-cancelled-in-callback-do-failed")
+		}
 		if raceErrs > 0 {
 			classes = append(classes, "do-failed-racing-close")
 		}
@@ -1114,7 +1129,7 @@ func failedOp(seg c17Seg, seq uint32) bool {
 	for _, ops := range seg.Writers {
 		for _, op := range ops {
 			if op.Seq == seq {
-				return op.Fail != 0
+				return op.Fail == 1 || op.Fail == 2 // 3 (context cancelled in the callback) counts as failed only if Do said so
 			}
 		}
 	}
@@ -1179,6 +1194,8 @@ func c17Gen() *rapid.Generator[c17Case] {
 						op.Fail = 1
 					case 1:
 						op.Fail = 2
+					case 2:
+						op.Fail = 3
 					}
 					if rapid.IntRange(0, 3).Draw(t, "pause?") == 0 {
 						op.PauseUs = rapid.IntRange(1, 3000).Draw(t, "pause")
@@ -1285,6 +1302,7 @@ func TestVerifC17Crash(t *testing.T) {
 			total.snapshotsBehind += st.snapshotsBehind
 			total.snapshotsEven += st.snapshotsEven
 			total.rejected += st.rejected
+			total.cancelled += st.cancelled
 			total.tornByParent += st.tornByParent
 			c17Known(ev, &st, &total)
 			for k, v := range st.killPoints {
@@ -1301,6 +1319,7 @@ func TestVerifC17Crash(t *testing.T) {
 	}
 	ev.Class("fault-points:kills-with-unacknowledged-write-in-flight", int64(total.inflightAtKill))
 	ev.Class("fault-points:appends-rejected", int64(total.rejected))
+	ev.Class("fault-points:ctx-cancelled-in-callback-do-failed", int64(total.cancelled))
 	ev.Class("fault-points:tails-torn-by-parent", int64(total.tornByParent))
 	ev.Class("restarts-refused-on-torn-tail(known)", int64(total.knownTornTail))
 	ev.Class("reader-observations-checked", int64(total.viewsChecked))
